@@ -17,6 +17,7 @@
 package finalizers
 
 import (
+	"bytes"
 	"crypto/sha256"
 	"crypto/x509"
 	"encoding/binary"
@@ -128,7 +129,9 @@ func (f *jwtFinalizer) Execute(ctx heimdall.Context, sub *subject.Subject) error
 		err      error
 	)
 
-	cacheKey := f.calculateCacheKey(ctx, sub)
+	signerHash := f.signer.Hash()
+
+	cacheKey := f.cacheKeyFor(ctx, sub, signerHash)
 	if entry, err := cch.Get(ctx.AppContext(), cacheKey); err == nil {
 		logger.Debug().Msg("Reusing JWT from cache")
 
@@ -136,12 +139,16 @@ func (f *jwtFinalizer) Execute(ctx heimdall.Context, sub *subject.Subject) error
 	}
 
 	if len(jwtToken) == 0 {
-		jwtToken, err = f.generateToken(ctx, sub)
+		var usedSignerHash []byte
+
+		jwtToken, usedSignerHash, err = f.generateToken(ctx, sub)
 		if err != nil {
 			return err
 		}
 
-		if len(cacheKey) != 0 && f.ttl > defaultCacheLeeway {
+		// the key store may have been reloaded since the cache key has been calculated. The token is then signed
+		// with another key, than the one the cache key stands for, and must not be stored using it.
+		if len(cacheKey) != 0 && f.ttl > defaultCacheLeeway && bytes.Equal(signerHash, usedSignerHash) {
 			if err = cch.Set(ctx.AppContext(), cacheKey, stringx.ToBytes(jwtToken), f.ttl-defaultCacheLeeway); err != nil {
 				logger.Warn().Err(err).Msg("Failed to cache JWT token")
 			}
@@ -184,7 +191,7 @@ func (f *jwtFinalizer) ID() string { return f.id }
 
 func (f *jwtFinalizer) ContinueOnError() bool { return false }
 
-func (f *jwtFinalizer) generateToken(ctx heimdall.Context, sub *subject.Subject) (string, error) {
+func (f *jwtFinalizer) generateToken(ctx heimdall.Context, sub *subject.Subject) (string, []byte, error) {
 	logger := zerolog.Ctx(ctx.AppContext())
 	logger.Debug().Msg("Generating new JWT")
 
@@ -196,7 +203,7 @@ func (f *jwtFinalizer) generateToken(ctx heimdall.Context, sub *subject.Subject)
 			"Outputs": ctx.Outputs(),
 		})
 		if err != nil {
-			return "", errorchain.
+			return "", nil, errorchain.
 				NewWithMessage(heimdall.ErrInternal, "failed to render claims").
 				WithErrorContext(f).
 				CausedBy(err)
@@ -205,32 +212,36 @@ func (f *jwtFinalizer) generateToken(ctx heimdall.Context, sub *subject.Subject)
 		logger.Debug().Str("_value", vals).Msg("Rendered template")
 
 		if err = json.Unmarshal(stringx.ToBytes(vals), &claims); err != nil {
-			return "", errorchain.
+			return "", nil, errorchain.
 				NewWithMessage(heimdall.ErrInternal, "failed to unmarshal claims rendered by template").
 				WithErrorContext(f).
 				CausedBy(err)
 		}
 	}
 
-	token, err := f.signer.Sign(sub.ID, f.ttl, claims)
+	token, signerHash, err := f.signer.sign(sub.ID, f.ttl, claims)
 	if err != nil {
-		return "", errorchain.
+		return "", nil, errorchain.
 			NewWithMessage(heimdall.ErrInternal, "failed to sign token").
 			WithErrorContext(f).
 			CausedBy(err)
 	}
 
-	return token, nil
+	return token, signerHash, nil
 }
 
 func (f *jwtFinalizer) calculateCacheKey(ctx heimdall.Context, sub *subject.Subject) string {
+	return f.cacheKeyFor(ctx, sub, f.signer.Hash())
+}
+
+func (f *jwtFinalizer) cacheKeyFor(ctx heimdall.Context, sub *subject.Subject, signerHash []byte) string {
 	const int64BytesCount = 8
 
 	ttlBytes := make([]byte, int64BytesCount)
 	binary.LittleEndian.PutUint64(ttlBytes, uint64(f.ttl))
 
 	hash := sha256.New()
-	hash.Write(f.signer.Hash())
+	hash.Write(signerHash)
 	hash.Write(x.IfThenElseExec(f.claims != nil,
 		func() []byte { return f.claims.Hash() },
 		func() []byte { return []byte{} }))
